@@ -84,6 +84,41 @@ func runRace(prop string, rounds int) int {
 				}
 			}
 		}
+		// first construction of map codecs whose key / value types are larger than any fixed zero block,
+		// by two goroutines at once, on fresh instances (shared package-level state must not be written)
+		for round := 0; round < rounds; round += 8 {
+			big := func(n int) reflect.Type {
+				var fs []reflect.StructField
+				for i := 0; i < n; i++ {
+					fs = append(fs, reflect.StructField{Name: fmt.Sprintf("F%d", i), Type: reflect.TypeOf(uint64(0)), Tag: reflect.StructTag(fmt.Sprintf(`plenc:"%d"`, i+1))})
+				}
+				return reflect.StructOf(fs)
+			}
+			k := 130 + (round/8)*37%900
+			types := []reflect.Type{reflect.MapOf(reflect.TypeOf(""), big(k)), reflect.MapOf(big(k+64), reflect.TypeOf("")), reflect.MapOf(reflect.TypeOf(int(0)), big(k+200))}
+			var wg sync.WaitGroup
+			start := make(chan struct{})
+			for i, t := range types {
+				i, t := i, t
+				wg.Add(1)
+				go func() {
+					defer wg.Done()
+					p := &plenc.Plenc{}
+					p.RegisterDefaultCodecs()
+					<-start
+					if _, err := p.CodecForType(t); err != nil {
+						report("big map type %d: %v", i, err)
+						return
+					}
+					m := reflect.New(t)
+					if err := p.Unmarshal([]byte{0x01, 0x00}, m.Interface()); err != nil {
+						report("big map type %d: decode of an entry without key and value: %v", i, err)
+					}
+				}()
+			}
+			close(start)
+			wg.Wait()
+		}
 		// steady state: the codecs exist, several goroutines encode and decode different values of
 		// one type through them at once, under each option combination
 		for round := 0; round < rounds; round += 10 {
